@@ -69,7 +69,9 @@ def locate_structs(shape, expected):
     for e in expected:
         cands = by_name.get(e["pascal"], [])
         if e["uri"] is not None:
-            hit = [s for s in cands if any(p[1] == e["uri"] for p in (s["yaserde"].get("namespaces") or []))]
+            # the struct's own namespace is the one its own prefix is bound to
+            hit = [s for s in cands if any(p[0] == s["yaserde"].get("prefix") and p[1] == e["uri"]
+                                           for p in (s["yaserde"].get("namespaces") or []))]
         else:
             hit = [s for s in cands if not s["yaserde"].get("namespaces")]
         out[id(e)] = hit
